@@ -19,6 +19,16 @@ if "def" in ast.unparse(ast.parse("𝕕𝕖𝕗 = 1")):
 
     true_unparse = ast.unparse
 
+    def mince(v):
+        # We refer to this transformation as "keyword mincing"
+        # in documentation. Dotted module names are minced part
+        # by part.
+        return ".".join(
+            chr(ord(part[0]) - ord("a") + ord("𝐚")) + part[1:]
+            if keyword.iskeyword(part) and part not in ("True", "False", "None")
+            else part
+            for part in v.split("."))
+
     def rewriting_unparse(ast_obj):
         ast_obj = copy.deepcopy(ast_obj)
         for node in ast.walk(ast_obj):
@@ -27,14 +37,12 @@ if "def" in ast.unparse(ast.parse("𝕕𝕖𝕗 = 1")):
                 continue
             for field in node._fields:
                 v = getattr(node, field, None)
-                if (
-                    type(v) is str
-                    and keyword.iskeyword(v)
-                    and v not in ("True", "False", "None")
-                ):
-                    # We refer to this transformation as "keyword mincing"
-                    # in documentation.
-                    setattr(node, field, chr(ord(v[0]) - ord("a") + ord("𝐚")) + v[1:])
+                if type(v) is str:
+                    setattr(node, field, mince(v))
+                elif type(v) is list and v and all(type(x) is str for x in v):
+                    # E.g., the names of `global` and `nonlocal`, or
+                    # the keyword names of a class pattern.
+                    setattr(node, field, [mince(x) for x in v])
         return true_unparse(ast_obj)
 
     ast.unparse = rewriting_unparse
